@@ -9,7 +9,7 @@ from vlib.runner import drive
 PROP = "C04"
 LEVEL = "exploration"
 WORKERS = {"quick": 4, "thorough": 16}
-BUDGET = {"quick": 80, "thorough": 700}
+BUDGET = {"quick": 120, "thorough": 700}
 TECHNIQUE = "dense Hypothesis generation of (pre-state, destination state, handle provenance, one edit) against byte snapshots and an independent id oracle"
 LEVEL_TEXT = (
     "Every case builds a job with a payload, optionally a destination (initialised job / empty id directory / "
